@@ -345,3 +345,7 @@ mod tests {
         assert_eq!(res, TryRecvError::Empty);
     }
 }
+
+#[cfg(all(test, pendulum_project_ntpd_rs_verif))]
+#[path = "/verif/harness/ntpd/probe_standard.rs"]
+pub(crate) mod verif_probe;
